@@ -24,6 +24,9 @@ type Engine struct {
 	objSerial   map[objKey]int
 	objBySerial map[int]ssa.Value
 	objOwner    map[int]*Eval
+
+	globalInit   map[*ssa.Global]ssa.Value
+	globalStores map[*ssa.Global]int
 }
 
 func NewEngine(inRepo func(string) bool, inlineDepth int) *Engine {
@@ -861,6 +864,12 @@ func (ev *Eval) call(c *ssa.Call) *Term {
 			}
 			return at
 		}
+		// an interface-typed package variable that is assigned exactly once, in its initialiser, and nowhere else in the
+		// repository (a dependency-injection seam): the call goes to that value's method
+		if fn := ev.E.Devirtualise(com); fn != nil && ev.inlinable(fn) {
+			ch := ev.child(c, fn, append([]*Term{recv}, ev.args(com.Args, c)...), nil)
+			return ch.Return()
+		}
 		full := "(" + typeString(com.Value.Type()) + ")." + com.Method.Name()
 		return &Term{K: KCall, Name: full, Args: append([]*Term{recv}, ev.args(com.Args, c)...), Instr: c, N: ev.E.serialFor(ev, c)}
 	}
@@ -1195,4 +1204,89 @@ func (ev *Eval) WalkActivations(f func(*Eval)) {
 	for _, c := range cs {
 		c.WalkActivations(f)
 	}
+}
+
+// devirtualise resolves an invoke whose receiver is the load of a single-assignment package-level interface variable.
+func (e *Engine) Devirtualise(com *ssa.CallCommon) *ssa.Function {
+	ld, ok := com.Value.(*ssa.UnOp)
+	if !ok || ld.Op != token.MUL {
+		return nil
+	}
+	g, ok := ld.X.(*ssa.Global)
+	if !ok || g.Pkg == nil || !e.InRepo(g.Pkg.Pkg.Path()) {
+		return nil
+	}
+	v := e.SingleInitValue(g)
+	mi, ok := v.(*ssa.MakeInterface)
+	if !ok {
+		return nil
+	}
+	return g.Pkg.Prog.LookupMethod(mi.X.Type(), com.Method.Pkg(), com.Method.Name())
+}
+
+// SingleInitValue returns the value stored into g when the only store to g in the repository's packages is in a package
+// initialiser; nil otherwise.
+func (e *Engine) SingleInitValue(g *ssa.Global) ssa.Value {
+	if e.globalInit == nil {
+		e.globalInit = map[*ssa.Global]ssa.Value{}
+		e.globalStores = map[*ssa.Global]int{}
+		seen := map[*ssa.Function]bool{}
+		var scan func(fn *ssa.Function)
+		scan = func(fn *ssa.Function) {
+			if fn == nil || seen[fn] {
+				return
+			}
+			seen[fn] = true
+			for _, b := range fn.Blocks {
+				for _, in := range b.Instrs {
+					if st, ok := in.(*ssa.Store); ok {
+						if gg, ok := st.Addr.(*ssa.Global); ok {
+							e.globalStores[gg]++
+							if fn.Name() == "init" && fn.Parent() == nil {
+								e.globalInit[gg] = st.Val
+							} else {
+								e.globalStores[gg] += 100
+							}
+						}
+					}
+					// the address escaping (&g passed on) counts as a possible writer
+					if _, isStore := in.(*ssa.Store); !isStore {
+						for _, op := range in.Operands(nil) {
+							if gg, ok := (*op).(*ssa.Global); ok {
+								if _, isLoad := in.(*ssa.UnOp); !isLoad {
+									e.globalStores[gg] += 100
+								}
+							}
+						}
+					}
+				}
+			}
+			for _, a := range fn.AnonFuncs {
+				scan(a)
+			}
+		}
+		for _, pkg := range g.Pkg.Prog.AllPackages() {
+			if !e.InRepo(pkg.Pkg.Path()) {
+				continue
+			}
+			for _, m := range pkg.Members {
+				switch m := m.(type) {
+				case *ssa.Function:
+					scan(m)
+				case *ssa.Type:
+					for _, t := range []types.Type{m.Type(), types.NewPointer(m.Type())} {
+						ms := pkg.Prog.MethodSets.MethodSet(t)
+						for i := 0; i < ms.Len(); i++ {
+							scan(pkg.Prog.MethodValue(ms.At(i)))
+						}
+					}
+				}
+			}
+			scan(pkg.Func("init"))
+		}
+	}
+	if e.globalStores[g] != 1 {
+		return nil
+	}
+	return e.globalInit[g]
 }
